@@ -337,6 +337,25 @@ def check_molecule(ctx, case):
                     else:
                         ctx.count('derived_molecule_objects_checked')
             observe(lib.GetDescriptors, smi)
+    if ok and len(smi) % 3 == 0 and not case.get('revisit'):
+        # copies / unpickled copies of the estimate give the same dimensional
+        # values (elemental reference included: it travels with the estimate)
+        from vmon.core import clones
+        Tc = temps_for(est, rng)[0]
+        keys = list(R_TABLE)
+        k1, k2 = keys[len(smi) % len(keys)], keys[(len(smi) + 5) % len(keys)]
+        calls = []
+        for k_ in (k1, k2):
+            calls += [
+                ('get_S(%s, S_elements=True)' % k_, lambda e_, k_=k_: repr(
+                    float(e_.get_S(Tc, k_, S_elements=True)))),
+                ('get_G(%s, S_elements=True)' % k_, lambda e_, k_=k_: repr(
+                    float(e_.get_G(Tc, k_[:-2], S_elements=True)))),
+                ('get_H(%s)' % k_, lambda e_, k_=k_: repr(
+                    float(e_.get_H(Tc, k_[:-2])))),
+                ('get_Cp(%s)' % k_, lambda e_, k_=k_: repr(
+                    float(e_.get_Cp(Tc, k_))))]
+        clones.agreement(ctx, case, est, calls, 'molecule estimate', 'after')
     if ok:
         ctx.nontrivial(['mol', case['lib'], smi, bool(case.get('as_mol'))])
         ctx.klass('molecule estimates')
